@@ -53,22 +53,32 @@ fn spec_castle_field(bits: u8, out: &mut [u8; 96], n: &mut usize) {
 /// back to the same values.  Placement fixed to the two kings (the placement has its own obligations).
 #[kani::proof]
 #[kani::unwind(66)]
-fn c11_fields_write_and_read_back() {
+fn c11_castling_field_write_and_read_back() {
+    let bits: u8 = kani::any();
+    kani::assume(bits < 16);
+    fields_obligation(any_color(), bits, None)
+}
+
+#[kani::proof]
+#[kani::unwind(66)]
+fn c11_en_passant_field_write_and_read_back() {
+    let bits: u8 = kani::any();
+    kani::assume(bits == 0 || bits == 15);
+    fields_obligation(any_color(), bits, any_opt_square())
+}
+
+fn fields_obligation(turn: Color, bits: u8, ep: Option<Square>) {
     use std::fmt::Write;
     let mut p = [0u64; 16];
     p[6] = bit(4);
     p[14] = bit(60);
-    let turn = any_color();
-    let bits: u8 = kani::any();
-    kani::assume(bits < 16);
     let rights = ArrayMap::new([
         CastleRights { kingside: bits & 1 != 0, queenside: bits & 2 != 0 },
         CastleRights { kingside: bits & 4 != 0, queenside: bits & 8 != 0 },
     ]);
-    let ep = any_opt_square();
-    let half: usize = kani::any();
-    let full: usize = kani::any();
-    kani::assume(half < 10 && full < 10);
+    // counters: formatting/parsing of usize is std's (assumed); fixed here
+    let half: usize = 0;
+    let full: usize = 1;
     let state = State::new(board_from(&p), turn, rights.clone(), ep, Clock { halfmove_clock: half, fullmove_number: full });
     let mut out = Buf { b: [0; 96], n: 0 };
     let r = write!(out, "{}", into_notation::<_, Fen>(&state));
@@ -104,7 +114,7 @@ fn c11_fields_write_and_read_back() {
     let ep_txt = std::str::from_utf8(&out.b[ep_at..ep_end]).unwrap();
     let ep_back = if ep_txt == "-" { None } else { Some(Square::try_from(ep_txt).unwrap()) };
     assert!(ep_back == ep);
-    kani::cover!(bits == 15 && ep.is_some(), "all fields reachable");
+    kani::cover!(bits == 15, "all rights reachable");
     kani::cover!(bits == 0 && ep.is_none(), "dashes reachable");
 }
 
@@ -193,4 +203,40 @@ fn c11_placement_parse_rank_8() {
 #[kani::unwind(66)]
 fn c11_placement_parse_rank_4() {
     placement_parse_rank(3)
+}
+
+// ---- cheap field-level round trips (quick tier) -------------------------------------------------------------------------
+
+/// the castling-field parser inverts the canonical spelling for all 16 sets
+#[kani::proof]
+#[kani::unwind(8)]
+fn c11_castling_field_parse_inverse() {
+    let bits: u8 = kani::any();
+    kani::assume(bits < 16);
+    let mut e = [0u8; 96];
+    let mut n = 0usize;
+    spec_castle_field(bits, &mut e, &mut n);
+    let txt = std::str::from_utf8(&e[..n]).unwrap();
+    let back = ArrayMap::<Color, CastleRights>::try_parse(txt);
+    assert!(back.is_ok());
+    let back = back.unwrap();
+    assert!(back[Color::White].kingside == (bits & 1 != 0) && back[Color::White].queenside == (bits & 2 != 0));
+    assert!(back[Color::Black].kingside == (bits & 4 != 0) && back[Color::Black].queenside == (bits & 8 != 0));
+    kani::cover!(bits == 15, "KQkq reachable");
+    kani::cover!(bits == 0, "dash reachable");
+}
+
+/// a square is written as file letter + rank digit and read back to the same square (the en-passant field)
+#[kani::proof]
+#[kani::unwind(6)]
+fn c11_square_text_roundtrip() {
+    use std::fmt::Write;
+    let s = any_square();
+    let mut out = Buf { b: [0; 96], n: 0 };
+    assert!(write!(out, "{}", s).is_ok());
+    let i = sq_u8(s);
+    assert!(out.n == 2 && out.b[0] == b'a' + i % 8 && out.b[1] == b'1' + i / 8);
+    let txt = std::str::from_utf8(&out.b[..2]).unwrap();
+    assert!(Square::try_from(txt) == Ok(s));
+    kani::cover!(i == 63, "h8 reachable");
 }
